@@ -62,7 +62,8 @@ def _list_items(cp):
   # [Table-Form:NAME] sections
   from ...config._config_parser import _TableFormSection
   for section in cp.raw_config_parser.sections():
-    if _TableFormSection.is_relevant_section(section):
+    # (a section called just [Table-Form], without ':NAME', is neither a table form nor an orphan section: its items are items all the same)
+    if _TableFormSection.is_relevant_section(section) or section == _TableFormSection._section_name_prefix:
       items.extend(_list_section(cp, section))
 
   orphan_sections = cp.orphan_sections
